@@ -26,5 +26,5 @@ for d in sorted(glob.glob(os.path.join(ROOT, "seeded", "*"))):
     m = json.load(open(mp))
     fin = m.get("final_verification") or {}
     caught = fin.get("caught_by") if fin.get("confirmed") else None
-    col = ", ".join(caught) if caught else ("superseded by a repair (was caught by %s)" % ", ".join(m.get("caught_by") or ["-"]) if m.get("superseded") else ", ".join(m.get("caught_by") or ["-"]))
+    col = ", ".join(caught) if caught else (("superseded by a repair (was caught by %s)" % ", ".join(m["caught_by"]) if m.get("caught_by") else "superseded by the repair of the defect its trigger exposed") if m.get("superseded") else ", ".join(m.get("caught_by") or ["-"]))
     print("| %s | %s | %s | %s |" % (m["name"], m.get("breaks_property", m["name"][:3]), col, (m.get("needs_to_manifest") or "").replace("|", "/")[:260]))
